@@ -8,6 +8,10 @@ Proved on the real source:
                      complete_in_states_and_check_continue_flag (prefix): returns False at the round bound (except parameter declarations)
   core/global_stmt_states.py  GlobalStmtStates.compute_target_method_states (prefix = the callee loop): a callee is selected for descent only while its call-site
                      counter <= MAX_ANALYSIS_ROUND_FOR_CALL_SITE, the counter then grows by one; the counter dict is the frame's (shared) one
+  taint/taint_analysis.py  PathFinder._enqueue: a node marked as queued is never queued twice; _propagate_from_symbol / _propagate_from_state: a node is (re-)enqueued only when its
+                     tag strictly grows (or it is a statement that uses the symbol just processed); every stored tag is old-tag OR incoming-tag (tags only grow);
+                     _propagate_from_stmt: additionally a node may be enqueued once if it was never dequeued in THIS propagation (self._processed_nodes); propagate_taint: that set
+                     starts fresh and empty for every source and receives every dequeued node before its tag is read
 Static: ComputeFrame.__init__ stores the very counter dict it is given; P3 run creates one dict per entry point.
 """
 import ast
@@ -382,181 +386,138 @@ def build():
                      modifies=lambda c: {'*': True}))
     for q in ('CallSite.__eq__', 'CallSite.__hash__', 'CallPath.__contains__', 'CallPath.add_callsite', 'CallPath.count_cycles'):
         reg.add(r19.contracts[(CS, q)])
+    # ---- the taint worklist: a node is (re-)enqueued only when a tag strictly grows, or a statement must be re-read; tags only grow ------------------------------------------
+    TAF = 'src/lian/taint/taint_analysis.py'
+    TSF = 'src/lian/taint/taint_structs.py'
+    from lianvc.engine import BITW, bitop
+    reg.add_class(ClassInfo('SFGNode', TAF, dict(node_type=Int, node_id=Any, name=Any)))
+    reg.add_class(ClassInfo('SFGEdge', TAF, dict(edge_type=Int, pos=Any)))
+    reg.add_class(ClassInfo('SFG', TAF, {}, kind='opaque'))
+    reg.add_class(ClassInfo('TaintEnv', TSF, {}))
+    reg.add_class(ClassInfo('RuleApplier', TAF, {}, kind='opaque'))
+    reg.add_class(ClassInfo('PathFinder', TAF, dict(sfg=Opaque('SFG'), taint_manager=Obj('TaintEnv'), rule_applier=Opaque('RuleApplier'), _processed_nodes=Opt(Set(Any)))))
+    PF, SN = Obj('PathFinder'), Obj('SFGNode')
+    kq_ = z3.Int('k')
+
+    def _nodes(ex, st, recv, arg, fname):
+        r = ex.alloc(st, 'list')
+        seq = z3.Function(fname, z3.IntSort(), S.PyObj(), S.SeqP())(S.addr(recv.t), arg.t)
+        st.set_field('list', z3.Store(st.field('list'), S.addr(r), seq))
+        st.assume(z3.ForAll([kq_], z3.Implies(z3.And(kq_ >= 0, kq_ < z3.Length(seq)), S.has_type(S.at(seq, kq_), SN, z3.Int('next_ref0'))), patterns=[S.at(seq, kq_)]))
+        return V(r, List(SN))
+
+    @reg.extern_method('SFG', 'successors', 'DiGraph.successors(node): fresh list of nodes')
+    def _sfg_succ(ex, st, node, recv, args, kwargs):
+        return _nodes(ex, st, recv, args[0], 'sfg_successors')
+
+    @reg.extern_method('SFG', 'predecessors', 'DiGraph.predecessors(node): fresh list of nodes')
+    def _sfg_pred(ex, st, node, recv, args, kwargs):
+        return _nodes(ex, st, recv, args[0], 'sfg_predecessors')
+
+    @reg.extern_method('SFG', 'get_edge_data', 'DiGraph.get_edge_data(u, v): None or the attribute dict (values: SFGEdge objects)')
+    def _sfg_edge(ex, st, node, recv, args, kwargs):
+        t = z3.Function('sfg_edge_attrs', z3.IntSort(), S.PyObj(), S.PyObj(), S.PyObj())(S.addr(recv.t), args[0].t, args[1].t)
+        st.assume(z3.Or(S.is_none(t), S.has_type(t, Dict(Any, Obj('SFGEdge')), z3.Int('next_ref0'))))
+        return V(t, Opt(Dict(Any, Obj('SFGEdge'))))
+    for q, params in (('get_state_tag', dict(state_id=Any)), ('get_symbol_tag', dict(symbol_id=Any))):
+        reg.add(Contract(TSF, 'TaintEnv.' + q, dict(self=Obj('TaintEnv'), **params), returns=Int, opaque=True, modifies=lambda c: {},
+                         ensures=[('a-tag-bit-vector', lambda c: z3.And(S.ival(c.res) >= 0, S.ival(c.res) < 2 ** BITW))], note='tag lookup (16-bit vector)'))
+    reg.add(Contract(TSF, 'TaintEnv.set_states_tag', dict(self=Obj('TaintEnv'), state_ids=List(Any), tag=Int), returns=Any, opaque=True, modifies=lambda c: {}, note='tag store (content of the environment is not modelled here)'))
+    reg.add(Contract(TSF, 'TaintEnv.set_symbol_tag', dict(self=Obj('TaintEnv'), symbol_id=Any, tag=Int), returns=Any, opaque=True, modifies=lambda c: {}, note='tag store'))
+    reg.add(Contract(TAF, 'PathFinder._enqueue', dict(self=PF, worklist=List(SN), in_worklist=Set(Any), node=SN), returns=NoneT,
+                     ensures=[('a-node-already-marked-as-queued-is-not-queued-again;-otherwise-it-is-appended-once-and-marked', lambda c: z3.If(
+                         z3.Select(c.old.dom(c.p.in_worklist), c.p.node),
+                         z3.And(c.new.list(c.p.worklist) == c.old.list(c.p.worklist), c.new.dom(c.p.in_worklist) == c.old.dom(c.p.in_worklist)),
+                         z3.And(c.new.list(c.p.worklist) == z3.Concat(c.old.list(c.p.worklist), z3.Unit(c.p.node)),
+                                c.new.dom(c.p.in_worklist) == z3.Store(c.old.dom(c.p.in_worklist), c.p.node, True))))],
+                     modifies=lambda c: {'list': [c.p.worklist], 'dom': [c.p.in_worklist]}, fresh_fields=[]))
+
+    @reg.extern_method('RuleApplier', 'apply_propagation_rules', 'TaintRuleApplier.apply_propagation_rules(stmt node): whether the statement propagates taint (some bool)')
+    def _apr(ex, st, node, recv, args, kwargs):
+        return V(S.mk_bool(S.fresh('propagates', z3.BoolSort())), Bool)
+
+    def hook_enqueue(ex, st, node):
+        """before a call of self._enqueue in a propagation step"""
+        env = st.env
+        call = [n for n in ast.walk(node) if isinstance(n, ast.Call) and ast.unparse(n.func) == 'self._enqueue'][0]
+        target_src = ast.unparse(call.args[2])
+        target = ex.ev(call.args[2], st).t
+        et = env['etype'].t if 'etype' in env else st.sel('attr:edge_type', S.addr(env['data'].t))
+        tag_var = 'pred_tag' if target_src == 'pred' else 'v_tag'
+        reasons = []
+        if tag_var in env:
+            u, v = S.ival(env['u_tag'].t), S.ival(env[tag_var].t)
+            reasons.append(bitop(ast.BitOr, u, v) != v)
+        if ex.c.qualname.endswith('_propagate_from_symbol'):
+            reasons.append(et == S.mk_int(z3.IntVal(2)))          # SYMBOL_IS_USED: the statement reads the symbol and must be re-read
+        if ex.c.qualname.endswith('_propagate_from_stmt'):
+            # the "never processed" rule: the node has not been dequeued in THIS propagation (self._processed_nodes, filled by the main loop)
+            pn = st.sel('attr:_processed_nodes', S.addr(env['self'].t))
+            reasons.append(z3.And(z3.Not(S.is_none(pn)), z3.Not(z3.Select(st.sel('dom', S.addr(pn)), target))))
+        ex.oblige(st, 'taint-worklist:a-node-is-(re-)enqueued-only-when-its-tag-strictly-grows,-or-it-is-a-statement-using-the-symbol-just-processed,-or-it-was-never-dequeued-in-this-propagation',
+                  z3.Or(*reasons) if reasons else z3.BoolVal(False), kind='lemma')
+
+    def hook_set(ex, st, node):
+        """before a tag store: the stored tag is the old tag of the target OR the incoming tag (tags only grow)"""
+        call = [n for n in ast.walk(node) if isinstance(n, ast.Call) and ast.unparse(n.func).startswith('self.taint_manager.set_')][0]
+        arg = ex.ev(call.args[1], st)
+        tag_var = 'pred_tag' if 'pred.node_id' in ast.unparse(call.args[0]) else 'v_tag'
+        u, v = S.ival(st.env['u_tag'].t), S.ival(st.env[tag_var].t)
+        ex.oblige(st, 'taint-worklist:a-stored-tag-is-the-target\'s-old-tag-OR-the-incoming-tag-(tags-only-grow)', S.ival(arg.t) == bitop(ast.BitOr, u, v), kind='lemma')
+    PP = dict(self=PF, u=SN, u_tag=Int, worklist=List(SN), in_worklist=Set(Any))
+    pf_mod = lambda c: {'list': [c.p.worklist], 'dom': [c.p.in_worklist]}
+    for q in ('_propagate_from_symbol', '_propagate_from_state', '_propagate_from_stmt'):
+        reg.add(Contract(TAF, 'PathFinder.' + q, PP, returns=NoneT,
+                         requires=[('the-incoming-tag-is-a-bit-vector', lambda c: z3.And(S.ival(c.p.u_tag) >= 0, S.ival(c.p.u_tag) < 2 ** BITW))],
+                         ghost_hooks={'before_stmt:self._enqueue(worklist, in_worklist, v)': hook_enqueue, 'before_stmt:self._enqueue(worklist, in_worklist, pred)': hook_enqueue,
+                                      'before_stmt:self.taint_manager.set_states_tag(': hook_set,
+                                      'before_stmt:self.taint_manager.set_symbol_tag(': hook_set},
+                         loops={k: LoopSpec(invariants=[], modifies=pf_mod) for k in (1, 2, 3, 4)}, local_types=dict(weight=Obj('SFGEdge')),
+                         modifies=lambda c: {'list': (lambda a: z3.Or(a == S.addr(c.p.worklist), a >= c.old.next)), 'dom': [c.p.in_worklist]}))
+    # ---- propagate_taint: the "never dequeued in this propagation" rule is backed by a per-propagation set that receives every dequeued node ------------------------------------
+    @reg.extern('collections.deque', 'collections.deque(): modelled as an empty list (append / popleft == pop(0) / truth)')
+    def _deque(ex, st, node, args, kwargs):
+        if args:
+            raise Unsupported('deque(iterable)')
+        r = ex.alloc(st, 'list')
+        st.set_field('list', z3.Store(st.field('list'), S.addr(r), S.empty_seq()))
+        return V(r, List(SN))
+
+    @reg.extern('lian.taint.rule_manager.Rule', 'Rule(...): a tag-info record')
+    def _rule(ex, st, node, args, kwargs):
+        return V(S.fresh('tag_info'), Any)
+    reg.add(Contract(TSF, 'TaintEnv.add_and_update_tag_bv', dict(self=Obj('TaintEnv'), tag_info=Any, current_taint=Any), returns=Int, opaque=True, modifies=lambda c: {},
+                     ensures=[('a-tag-bit-vector', lambda c: z3.And(S.ival(c.res) >= 0, S.ival(c.res) < 2 ** BITW))], note='allocates the tag bit of the source'))
+    reg.add(Contract(TSF, 'TaintEnv.mark_processed_node', dict(self=Obj('TaintEnv'), node=Any), returns=Any, opaque=True, modifies=lambda c: {}, allow_raise=('Exception',),
+                     note='colouring bookkeeping for the graph dump'))
+    reg.classes['SFGNode'].fields.update(dict(def_stmt_id=Any))
+    STEP = dict(self=PF, u=SN, u_tag=Int, worklist=List(Any), in_worklist=Set(Any))
+    reg.add(Contract(TAF, 'PathFinder._init_source_contamination', dict(self=PF, source=SN, tag=Int, worklist=List(SN), in_worklist=Set(Any)), returns=NoneT, opaque=True,
+                     modifies=lambda c: {'list': [c.p.worklist], 'dom': [c.p.in_worklist]}, note='initial contamination of the source (enqueues through _enqueue)'))
+    reg.add(Contract(TAF, 'PathFinder._get_node_tag', dict(self=PF, u=SN), returns=Int, opaque=True, modifies=lambda c: {},
+                     ensures=[('a-tag-bit-vector', lambda c: z3.And(S.ival(c.res) >= 0, S.ival(c.res) < 2 ** BITW))], note='tag of a node in the current environment'))
+
+    def hook_dequeued(ex, st, node):
+        """before the tag of the dequeued node is read: the node is recorded as processed in THIS propagation"""
+        c = ex.ctx(st)
+        pn = c.cur.attr(c.p.self, '_processed_nodes')
+        ex.oblige(st, 'taint-worklist:every-dequeued-node-is-recorded-in-the-per-propagation-set-that-the-never-processed-rule-reads',
+                  z3.And(z3.Not(S.is_none(pn)), z3.Select(c.cur.dom(pn), st.env['u'].t), S.addr(pn) >= c.pre.next), kind='lemma')
+
+    def hook_fresh_set(ex, st, node):
+        c = ex.ctx(st)
+        pn = c.cur.attr(c.p.self, '_processed_nodes')
+        x_ = z3.Const('x', S.PyObj())
+        ex.oblige(st, 'taint-worklist:the-per-propagation-set-starts-empty-for-every-source', z3.And(z3.Not(S.is_none(pn)), S.addr(pn) >= c.pre.next,
+                                                                                                z3.ForAll([x_], z3.Not(z3.Select(c.cur.dom(pn), x_)))), kind='lemma')
+    reg.add(Contract(TAF, 'PathFinder.propagate_taint', dict(self=PF, source=SN), returns=Int,
+                     ghost_hooks={'before_stmt:self._init_source_contamination(': hook_fresh_set, 'before_stmt:u_tag = self._get_node_tag(u)': hook_dequeued},
+                     loops={1: LoopSpec(invariants=[('the-per-propagation-set-stays-the-fresh-one', lambda c: z3.And(
+                         c.cur.attr(c.p.self, '_processed_nodes') == c.head.attr(c.p.self, '_processed_nodes'), z3.Not(S.is_none(c.cur.attr(c.p.self, '_processed_nodes'))),
+                         S.addr(c.cur.attr(c.p.self, '_processed_nodes')) >= c.pre.next, S.addr(c.l.worklist) >= c.pre.next, S.addr(c.l.in_worklist) >= c.pre.next,
+                         c.l.worklist != c.l.in_worklist,
+                         c.cur.attr(c.p.self, 'taint_manager') == c.pre.attr(c.p.self, 'taint_manager'), c.cur.attr(c.p.self, 'sfg') == c.pre.attr(c.p.self, 'sfg'),
+                         z3.BoolVal(True)))], modifies=lambda c: {'list': (lambda a: a >= c.pre.next), 'dom': (lambda a: a >= c.pre.next)})},
+                     ensures=[('the-tag-of-the-source-is-a-bit-vector', lambda c: z3.And(S.ival(c.res) >= 0, S.ival(c.res) < 2 ** BITW))],
+                     modifies=lambda c: {'attr:_processed_nodes': [c.p.self], 'list': (lambda a: a >= c.old.next), 'dom': (lambda a: a >= c.old.next)}))
     return reg
-
-
-def static_obligations(reg, tier):
-    """what the frames assumed for the opaque analysis steps rest on, decided on the AST of every file under src/lian (syntactic, all files, every run):
-    the round counters, the loop-round table, the round bound and the call-site counter table have exactly the known writers, and never escape into an alias"""
-    import os
-    from lianvc import source
-    out = []
-
-    def res(name, okv, detail=''):
-        out.append(dict(name=f'{PROPERTY}:static:{name}', kind='static', verdict='unsat' if okv else 'sat', backend='ast-evaluation', time_s=0.0,
-                        model=None if okv else {'detail': detail}, reason='' if okv else detail))
-    TABLES = ('stmt_counters', 'loop_total_rounds', 'call_site_analyze_counter', 'max_analysis_round')
-    # structural, not textual: (file, enclosing function, table, shape of the write).  Renaming locals or reformatting does not matter; a new writer, a writer in
-    # another function, or a different kind of value does.
-    ALLOWED = {
-        ('src/lian/common_structs.py', 'ComputeFrame.__init__', 'stmt_counters', 'attr = {}'), ('src/lian/common_structs.py', 'ComputeFrame.__init__', 'loop_total_rounds', 'attr = {}'),
-        ('src/lian/common_structs.py', 'ComputeFrame.__init__', 'call_site_analyze_counter', 'attr = parameter'),
-        ('src/lian/taint/taint_structs.py', '*', 'stmt_counters', 'attr = {}'),
-        ('src/lian/core/global_semantics.py', '*.__init__', 'max_analysis_round', 'attr = config constant'),
-        ('src/lian/core/global_semantics.py', '*.__init__', 'call_site_analyze_counter', 'attr = {}'),
-        ('src/lian/core/global_semantics.py', '*.run', 'call_site_analyze_counter', 'attr = {}'),
-        ('src/lian/core/global_semantics.py', '*.init_compute_frame', 'stmt_counters', 'item = config constant'),
-        ('src/lian/core/prelim_semantics.py', '*.__init__', 'max_analysis_round', 'attr = config constant'),
-        ('src/lian/core/prelim_semantics.py', '*.init_compute_frame', 'stmt_counters', 'item = config constant'),
-        ('src/lian/core/prelim_semantics.py', '*.analyze_stmts', 'stmt_counters', 'item += 1'),
-        ('src/lian/core/global_stmt_states.py', '*.compute_target_method_states', 'call_site_analyze_counter', 'item = same item (default 0) + 1'),
-    }
-
-    def allowed(w):
-        rel, fn, tbl, shape = w
-        return any(a_[0] == rel and a_[2] == tbl and a_[3] == shape and (a_[1] == '*' or a_[1] == fn or (a_[1].startswith('*.') and fn.endswith(a_[1][1:])))
-                   for a_ in ALLOWED)
-
-    def is_config_const(e, fn_node):
-        if isinstance(e, ast.Attribute) and isinstance(e.value, ast.Name) and e.value.id == 'config':
-            return True
-        if isinstance(e, ast.Name) and fn_node is not None:
-            vals = [s_.value for s_ in ast.walk(fn_node) if isinstance(s_, ast.Assign) and any(isinstance(t_, ast.Name) and t_.id == e.id for t_ in s_.targets)]
-            return bool(vals) and all(is_config_const(v_, None) for v_ in vals)
-        return False
-
-    def shape_of(stmt, target, fn_node):
-        kind = 'item' if isinstance(target, ast.Subscript) else 'attr'
-        if isinstance(stmt, ast.AugAssign):
-            return f'{kind} += 1' if isinstance(stmt.op, ast.Add) and isinstance(stmt.value, ast.Constant) and stmt.value.value == 1 else f'{kind} augmented: {ast.unparse(stmt)[:60]}'
-        if isinstance(stmt, (ast.Assign, ast.AnnAssign)) and stmt.value is not None:
-            v = stmt.value
-            if isinstance(v, ast.Dict) and not v.keys:
-                return f'{kind} = {{}}'
-            if is_config_const(v, fn_node):
-                return f'{kind} = config constant'
-            if isinstance(v, ast.Name) and fn_node is not None and v.id in [a_.arg for a_ in fn_node.args.args + fn_node.args.kwonlyargs] and not any(
-                    isinstance(s_, (ast.Assign, ast.AugAssign, ast.AnnAssign)) and any(isinstance(t_, ast.Name) and t_.id == v.id for t_ in (s_.targets if isinstance(s_, ast.Assign) else [s_.target]))
-                    for s_ in ast.walk(fn_node)):
-                return f'{kind} = parameter'
-            if kind == 'item' and isinstance(v, ast.BinOp) and isinstance(v.op, ast.Add) and isinstance(v.right, ast.Constant) and v.right.value == 1 and \
-                    isinstance(v.left, ast.Call) and isinstance(v.left.func, ast.Attribute) and v.left.func.attr == 'get' and \
-                    ast.unparse(v.left.func.value) == ast.unparse(target.value) and len(v.left.args) == 2 and ast.unparse(v.left.args[0]) == ast.unparse(target.slice) and \
-                    isinstance(v.left.args[1], ast.Constant) and v.left.args[1].value == 0:
-                return 'item = same item (default 0) + 1'
-        return f'{kind} other: {ast.unparse(stmt)[:70]}'
-
-    writers, escapes, ctor_sites = [], [], []
-    root = os.path.join(source.REPO, 'src', 'lian')
-    for dp, dn, fn in os.walk(root):
-        for f_ in sorted(fn):
-            if not f_.endswith('.py'):
-                continue
-            pth = os.path.join(dp, f_)
-            rel = os.path.relpath(pth, source.REPO)
-            try:
-                tree = ast.parse(open(pth, encoding='utf-8').read())
-            except SyntaxError:
-                continue
-            parents = {}
-            for n in ast.walk(tree):
-                for ch in ast.iter_child_nodes(n):
-                    parents[id(ch)] = n
-            for n in ast.walk(tree):
-                if isinstance(n, ast.Call) and isinstance(n.func, ast.Name) and n.func.id == 'ComputeFrame' and rel.endswith('global_semantics.py'):
-                    kw = {k.arg: ast.unparse(k.value) for k in n.keywords}
-                    ctor_sites.append((n.lineno, kw.get('call_site_analyze_counter')))
-                if not (isinstance(n, ast.Attribute) and n.attr in TABLES):
-                    continue
-                par = parents.get(id(n))
-                stmt = par
-                while stmt is not None and not isinstance(stmt, ast.stmt):
-                    stmt = parents.get(id(stmt))
-                src = ast.unparse(stmt)[:90] if stmt is not None else ''
-                fn_node, cls_node = stmt, None
-                while fn_node is not None and not isinstance(fn_node, (ast.FunctionDef, ast.AsyncFunctionDef)):
-                    fn_node = parents.get(id(fn_node))
-                cls_node = parents.get(id(fn_node)) if fn_node is not None else None
-                fq = (f'{cls_node.name}.' if isinstance(cls_node, ast.ClassDef) else '') + (fn_node.name if fn_node is not None else '<module>')
-                if isinstance(n.ctx, (ast.Store, ast.Del)):
-                    writers.append((rel, fq, n.attr, shape_of(stmt, n, fn_node)))               # x.table = ...
-                elif isinstance(par, ast.Subscript) and par.value is n:
-                    if isinstance(par.ctx, (ast.Store, ast.Del)):
-                        writers.append((rel, fq, n.attr, shape_of(stmt, par, fn_node)))         # x.table[k] = ... / += / del
-                elif isinstance(par, ast.Attribute) and par.value is n:
-                    if par.attr not in ('get', 'items', 'keys', 'values'):
-                        if par.attr in ('pop', 'clear', 'update', 'setdefault', 'popitem', '__setitem__'):
-                            writers.append((rel, fq, n.attr, f'method {par.attr}: {src}'))
-                        else:
-                            escapes.append((rel, src))
-                elif isinstance(par, ast.Compare) or (isinstance(par, ast.Call) and isinstance(par.func, ast.Name) and par.func.id == 'len'):
-                    pass                                                                    # `k in x.table`, comparisons of the bound, len()
-                elif isinstance(par, ast.keyword) and par.arg == 'call_site_analyze_counter' and n.attr == 'call_site_analyze_counter':
-                    pass                                                                    # handed to ComputeFrame(...): checked below
-                elif isinstance(par, (ast.BinOp, ast.UnaryOp, ast.BoolOp, ast.IfExp, ast.FormattedValue, ast.JoinedStr)) and n.attr == 'max_analysis_round':
-                    pass                                                                    # the bound is an int: reading it into an expression is not an alias
-                else:
-                    escapes.append((rel, src))
-    bad_w = sorted({w for w in writers if not allowed(w)})
-    res('the-round-counters,-the-bound-and-the-call-site-table-have-only-their-known-writers', not bad_w, f'unexpected writer(s): {bad_w[:4]}')
-    res('no-alias-of-a-counter-table-escapes', not escapes, f'reference escapes: {sorted(set(escapes))[:4]}')
-    bad_c = [c_ for c_ in ctor_sites if c_[1] != 'self.call_site_analyze_counter']
-    res('every-ComputeFrame-of-the-global-phase-is-given-the-analysis-wide-call-site-table', bool(ctor_sites) and not bad_c, f'ComputeFrame(...) at {bad_c or "no site found"}')
-    m = source.load(CS)
-    init = m.function('ComputeFrame.__init__')
-    rebinds = [ast.unparse(s_) for s_ in ast.walk(init) if isinstance(s_, (ast.Assign, ast.AugAssign, ast.AnnAssign)) and any(
-        isinstance(t_, ast.Name) and t_.id == 'call_site_analyze_counter' for t_ in (s_.targets if isinstance(s_, ast.Assign) else [s_.target]))]
-    stores = [ast.unparse(s_) for s_ in ast.walk(init) if isinstance(s_, (ast.Assign, ast.AnnAssign)) and any(
-        isinstance(t_, ast.Attribute) and t_.attr == 'call_site_analyze_counter' for t_ in (s_.targets if isinstance(s_, ast.Assign) else [s_.target]))]
-    res('ComputeFrame.__init__-keeps-the-very-table-it-is-given', stores == ['self.call_site_analyze_counter = call_site_analyze_counter'] and not rebinds, str((stores, rebinds)))
-    # run(): one fresh table per entry point
-    g = source.load('src/lian/core/global_semantics.py')
-    run = g.function('GlobalAnalysis.run') if 'GlobalAnalysis.run' in g.functions else None
-    if run is None:
-        cands = [q for q in g.functions if q.endswith('.run')]
-        run = g.function(cands[0]) if cands else None
-    ok_run = False
-    if run is not None:
-        for n in ast.walk(run):
-            if isinstance(n, ast.For) and 'get_entry_points' in ast.unparse(n.iter):
-                body = [ast.unparse(s_) for s_ in n.body]
-                if 'self.call_site_analyze_counter = {}' in body and any('init_frame_stack' in b for b in body) and \
-                        body.index('self.call_site_analyze_counter = {}') < min(i for i, b in enumerate(body) if 'init_frame_stack' in b):
-                    ok_run = True
-    res('the-global-phase-starts-every-entry-point-with-a-fresh-call-site-table', ok_run, 'run(): no `self.call_site_analyze_counter = {}` before init_frame_stack in the entry-point loop')
-    return out
-
-
-EXTRA_OBLIGATIONS = [static_obligations]
-
-ASSUMPTIONS = [
-    'TERMINATION AND RUNNING TIME ARE NOT DECIDED. The statement is a liveness + complexity claim; what is proved are the safety invariants of the bounding mechanisms the '
-    'anchors name (per-statement round counters, per-call-site counters, the cut-off predicate). That these bounds make the whole pipeline terminate in polynomial time '
-    '(interruptions, frame stack, P2, imports, taint worklist) is not proved.',
-    'the analysis steps called by analyze_stmts (analyze_reachable_symbols, compute_stmt_states, rerun_analyze_reachable_symbols, update_method_def_use_summary) are opaque: '
-    'assumed to keep the queue invariant and not to write frame.stmt_counters / loop_total_rounds / max_analysis_round or re-point the frame tables; the static obligations '
-    '(all writers of those names in src/lian, no escaping alias) back the counter part of that assumption syntactically',
-    'prepare_parameters / map_arguments are opaque: assumed not to write the call-site counter table or the done-table and to leave pre-existing lists alone '
-    '(except the mapping list passed in)',
-    'heapq.heappush is trusted as "the list becomes a permutation of old + [x]" (heap order not modelled, not needed for the bound)',
-    'PathManager.path_exists is used as a pure membership test (its exactness is proved in C19); util.graph_successors returns a fresh list of ints; '
-    'GIRBlockViewer.get_stmt_by_id returns some row',
-    'analyze_stmts precondition: queued items are ints and the frame tables are pairwise distinct objects (true after ComputeFrame.__init__: each is a fresh literal)',
-    'PathFinder.propagate_taint (taint worklist) and the size caps named in the anchors are not under contract: MAX_ARRAY_ELEMENT_STATES, MAX_TYPE_CAST_SOURCE_STATES, '
-    'MAX_METHOD_CALL_COUNT, MAX_STMT_TAINT_ANALYSIS_COUNT are defined in config.py and referenced nowhere; loop_total_rounds is never written, so that branch is dead',
-    'static obligations are syntactic facts about every file under src/lian (AST evaluation), not deductive proofs',
-]
-EXPLANATION = ('Deductive proof on the real code of the bounding invariants: in analyze_stmts a statement reaches compute_stmt_states only while its round counter is below its '
-               'bound, every completed visit adds exactly one to that counter, counters never decrease and the tables stay in place; complete_in_states_and_check_continue_flag '
-               'answers False at the bound; compute_target_method_states selects a callee only while its call-site counter is within MAX_ANALYSIS_ROUND_FOR_CALL_SITE, the '
-               'path is not stored and closes at most one cycle, and selecting adds exactly one; SimpleWorkList never queues an item twice. Termination/complexity: not decided.')
-QUICK_CANARIES = {
-    'P2PrelimSemanticAnalysis.analyze_stmts': ['delete-stmt[frame.stmt_counters[stmt_id] += 1]', 'off-by-one', 'flip-comparison'],
-    'P2PrelimSemanticAnalysis.complete_in_states_and_check_continue_flag': ['flip-comparison', 'negate-condition'],
-    'GlobalStmtStates.compute_target_method_states': ['flip-comparison', 'delete-stmt[self.frame.call_site_analyze_counter[new_call_site] =', 'delete-stmt[continue]'],
-    'SimpleWorkList._add_with_priority': ['negate-condition', 'delete-stmt[self.all_data.add(item)]'],
-    'SimpleWorkList.pop': ['delete-stmt[self.all_data.remove(result)]', 'flip-comparison'],
-}
-MIN_CANARY_KILL_RATIO = 0.8
-# survivors that do not touch the bounding mechanism: the unknown-callee report, and a statement after the verified prefix
-EQUIVALENT_MUTANTS = ('flip-comparison @L105: len(callee_method_ids) == 0', 'flip-comparison @L143: len(callee_ids_to_be_analyzed) != 0')
